@@ -24,7 +24,7 @@ var c06Strings = []string{
 	"2024-01-02T03:04:05Z", "9999-12-31T23:59:59Z", "yesterday", "text/html", "text/markdown", "image/png", "plain https://a.b/c text",
 }
 
-var c06Floats = []float64{0, -1, 1.5, 1e300, 18446744073709551616}
+var c06Floats = []float64{0, -1, 1.5, 1e300, 18446744073709551616, 1e15, 4e18}
 
 func c06Float(name string) float64 {
 	if verifrt.Param("cannedfloats", 0) == 1 {
@@ -35,6 +35,8 @@ func c06Float(name string) float64 {
 	verifrt.Assume(f-f == 0.0)
 	return f
 }
+
+var c06Totals = []float64{1e15, 18446744073709551616, 3, 4e18, -1, 1.5, 0, 1e300}
 
 var c06ElemStrings = []string{"", "Note", "https://h.example/x", "garbage"}
 
@@ -76,10 +78,16 @@ func c06Value(name string, depth int) any {
 		return l
 	default:
 		m := map[string]any{}
-		switch verifrt.Choice(name+"-shape", 3) {
+		switch verifrt.Choice(name+"-shape", 4) {
 		case 0:
 		case 1:
 			m["type"] = c06Strings[1+verifrt.Choice(name+"-t", verifrt.Param("types", 7))]
+		case 3:
+			// a collection (replies, outbox, comments) announcing any number of items
+			m["type"] = []string{"Collection", "OrderedCollection"}[verifrt.Choice(name+"-ct", 2)]
+			// (canned magnitudes: a symbolic double here multiplies floating-point queries beyond the budget)
+			m["totalItems"] = c06Totals[verifrt.Choice(name+"-total", verifrt.Param("totals", len(c06Totals)))]
+			m["items"] = []any{}
 		default:
 			m["type"] = c06Strings[1+verifrt.Choice(name+"-t", verifrt.Param("types", 7))]
 			m["url"] = c06Elem(name + "-u")
